@@ -356,3 +356,71 @@ func SHA3_256(msg []byte) []byte {
 
 // KeccakInt is the 256-bit big-endian integer of the digest (not reduced).
 func KeccakInt(msg []byte) *big.Int { return new(big.Int).SetBytes(Keccak256(msg)) }
+
+// ---- Keccak-f[1600] with a reduced number of rounds (written from FIPS 202; the first `rounds`
+// round constants are used, as a round-reduced instance of the same sponge) -------------------
+
+var keccakRC = [24]uint64{
+	0x0000000000000001, 0x0000000000008082, 0x800000000000808A, 0x8000000080008000,
+	0x000000000000808B, 0x0000000080000001, 0x8000000080008081, 0x8000000000008009,
+	0x000000000000008A, 0x0000000000000088, 0x0000000080008009, 0x000000008000000A,
+	0x000000008000808B, 0x800000000000008B, 0x8000000000008089, 0x8000000000008003,
+	0x8000000000008002, 0x8000000000000080, 0x000000000000800A, 0x800000008000000A,
+	0x8000000080008081, 0x8000000000008080, 0x0000000080000001, 0x8000000080008008,
+}
+
+var keccakRot = [5][5]uint{{0, 36, 3, 41, 18}, {1, 44, 10, 45, 2}, {62, 6, 43, 15, 61}, {28, 55, 25, 21, 56}, {27, 20, 39, 8, 14}}
+
+func keccakF(a *[5][5]uint64, rounds int) {
+	rol := func(x uint64, n uint) uint64 { return x<<(n%64) | x>>((64-n%64)%64) }
+	for r := 0; r < rounds; r++ {
+		var c, d [5]uint64
+		for x := 0; x < 5; x++ {
+			c[x] = a[x][0] ^ a[x][1] ^ a[x][2] ^ a[x][3] ^ a[x][4]
+		}
+		for x := 0; x < 5; x++ {
+			d[x] = c[(x+4)%5] ^ rol(c[(x+1)%5], 1)
+		}
+		for x := 0; x < 5; x++ {
+			for y := 0; y < 5; y++ {
+				a[x][y] ^= d[x]
+			}
+		}
+		var b [5][5]uint64
+		for x := 0; x < 5; x++ {
+			for y := 0; y < 5; y++ {
+				b[y][(2*x+3*y)%5] = rol(a[x][y], keccakRot[x][y])
+			}
+		}
+		for x := 0; x < 5; x++ {
+			for y := 0; y < 5; y++ {
+				a[x][y] = b[x][y] ^ (^b[(x+1)%5][y] & b[(x+2)%5][y])
+			}
+		}
+		a[0][0] ^= keccakRC[r]
+	}
+}
+
+// KeccakReduced: sponge with rate 1088, the given domain byte (0x01 Keccak, 0x06 SHA-3), 32-byte output
+// and a permutation of `rounds` rounds. rounds == 24 gives Keccak-256 / SHA3-256.
+func KeccakReduced(msg []byte, rounds int, domain byte) []byte {
+	const rate = 136
+	p := append([]byte{}, msg...)
+	p = append(p, domain)
+	for len(p)%rate != 0 {
+		p = append(p, 0)
+	}
+	p[len(p)-1] |= 0x80
+	var a [5][5]uint64
+	for off := 0; off < len(p); off += rate {
+		for i := 0; i < rate/8; i++ {
+			a[i%5][i/5] ^= binary.LittleEndian.Uint64(p[off+8*i:])
+		}
+		keccakF(&a, rounds)
+	}
+	out := make([]byte, 32)
+	for i := 0; i < 4; i++ {
+		binary.LittleEndian.PutUint64(out[8*i:], a[i%5][i/5])
+	}
+	return out
+}
